@@ -175,3 +175,55 @@ Proof.
     + intros a Ha. apply (proj1 (In_sort _ _)) in Ha. destruct (Forall2_In_l _ _ _ _ Frel Ha) as (e & He & Hr). exists e. split; [exact He|].
       destruct Hr as (N1 & N2 & Hq). split; [exact N1|]. split; [exact N2|]. apply arel_text_for. exact (conj N1 (conj N2 Hq)).
 Qed.
+
+(* an explicit marker called "character" suppresses the implicit attribute: whatever colons the text
+   holds, the result is that of markup_document_roundtrip *)
+Theorem explicit_character_marker its :
+  Forall item_ok its ->
+  no_edge_space (text its) ->
+  (forall encl, enclosed its [] [] = Some encl -> exists e, In e encl /\ str_eqb (fst e) (STR "character") = true) ->
+  match enclosed its [] [] with
+  | Some encl =>
+      exists attrs, parse_markup (render its) = Some (text its, attrs) /\
+        length attrs = length encl /\
+        (forall e, In e encl -> exists a, In a attrs /\ aname a = fst e /\ aprops a = [] /\
+                                          text_for_attribute (text its) a = Some (snd e)) /\
+        (forall a, In a attrs -> exists e, In e encl /\ aname a = fst e /\ aprops a = [] /\
+                                           text_for_attribute (text its) a = Some (snd e))
+  | None => parse_markup (render its) = None
+  end.
+Proof.
+  intros Hok (Ht1 & Ht2) Hchar. set (T := text its) in *.
+  destruct (main_loop_items its [] (S (length (render its))) 0 [] 0 [] 0%N Hok) as (p' & last' & ms' & Hms & Eml).
+  { rewrite app_nil_r. lia. }
+  rewrite app_nil_r in Eml.
+  assert (Eml' : main_loop (S (length (render its))) {| rest := render its; sp := 0 |} [] 0 [] 0%N = Some (text its, ms')).
+  { rewrite Eml. cbn [length main_loop rest app]. rewrite app_nil_r, rev_involutive. reflexivity. }
+  clear Eml. rename Eml' into Eml.
+  pose proof (build_attrs_enclosed its [] ms' [] [] [] [] Hok Hms (Forall2_nil _) (Forall2_nil _)) as Hb.
+  cbn [app] in Hb. fold T in Hb.
+  unfold parse_markup. rewrite Eml.
+  destruct (enclosed its [] []) as [encl|]; [|rewrite Hb; reflexivity].
+  destruct (Hchar encl eq_refl) as (e0 & He0 & Hn0).
+  destruct Hb as (attrs0 & Eb & Frel). rewrite Eb. cbv zeta.
+  assert (Hex : existsb (fun a => str_eqb (aname a) (STR "character")) (sort_attrs attrs0) = true).
+  { apply existsb_exists. destruct (Forall2_In_r _ _ _ _ Frel He0) as (a & Ha & (N1 & _)).
+    exists a. split; [apply (proj2 (In_sort _ _)); exact Ha|]. rewrite N1. exact Hn0. }
+  rewrite Hex. fold T.
+  assert (Etrim : trim_space T = T) by (unfold trim_space; rewrite Ht1, Ht2; apply rev_involutive).
+  rewrite Etrim, Ht1.
+  match goal with |- exists attrs, Some (T, map ?adj _) = _ /\ _ => set (adjust := adj) end.
+  assert (Hadj : forall a e, arel T a e -> adjust a = a).
+  { intros a e (_ & _ & q & Hp & Hl & Hbd & _). unfold adjust, clampz. destruct a as [nm ps ln sr pr]. cbn [apos alen aname asrc aprops] in *.
+    f_equal; lia. }
+  assert (Hmap : map adjust (sort_attrs attrs0) = sort_attrs attrs0).
+  { rewrite <- (map_id (sort_attrs attrs0)) at 2. apply map_ext_in. intros a Ha. apply (proj1 (In_sort _ _)) in Ha.
+    destruct (Forall2_In_l _ _ _ _ Frel Ha) as (e & _ & Hr). exact (Hadj a e Hr). }
+  rewrite Hmap. exists (sort_attrs attrs0). split; [reflexivity|]. split.
+  - rewrite sort_length. exact (Forall2_len _ _ _ Frel).
+  - split.
+    + intros e He. destruct (Forall2_In_r _ _ _ _ Frel He) as (a & Ha & Hr). exists a. split; [apply (proj2 (In_sort _ _)); exact Ha|].
+      destruct Hr as (N1 & N2 & Hq). split; [exact N1|]. split; [exact N2|]. apply arel_text_for. exact (conj N1 (conj N2 Hq)).
+    + intros a Ha. apply (proj1 (In_sort _ _)) in Ha. destruct (Forall2_In_l _ _ _ _ Frel Ha) as (e & He & Hr). exists e. split; [exact He|].
+      destruct Hr as (N1 & N2 & Hq). split; [exact N1|]. split; [exact N2|]. apply arel_text_for. exact (conj N1 (conj N2 Hq)).
+Qed.
